@@ -4,17 +4,6 @@ import OttoVerif.C03.LitSpec
 namespace OttoVerif.C03.LitThm
 open OttoVerif OttoVerif.Str OttoVerif.C03
 
-/-- no `\\` followed by an octal digit 4–7 and two more octal digits anywhere (region `octal_escape_4to7`, over-approximated
-    without regard to backslash parity) -/
-def noOct47 : List Nat → Bool
-  | 92 :: e :: a :: b :: r => !(decide (52 ≤ e ∧ e ≤ 55) && LitSpec.isOctD a && LitSpec.isOctD b) && noOct47 (e :: a :: b :: r)
-  | _ :: r => noOct47 r
-  | [] => true
-
-theorem noOct47_tail {x : Nat} {r : List Nat} (h : noOct47 (x :: r) = true) : noOct47 r = true := by
-  unfold noOct47 at h
-  split at h <;> simp_all
-
 /-- a code unit that is not a surrogate -/
 def OKU (u : Nat) : Prop := u < 0xD800 ∨ (0xDFFF < u ∧ u < 0x10000)
 
@@ -87,15 +76,6 @@ theorem map_some_eq {α β : Type} {o : Option α} {f : α → β} {y : β} (h :
   cases o <;> simp_all
 
 
-theorem noOct47_drop (n : Nat) : ∀ (r : List Nat), noOct47 r = true → noOct47 (r.drop n) = true := by
-  induction n with
-  | zero => intro r h; simpa using h
-  | succ n ih =>
-    intro r h
-    cases r with
-    | nil => simp [noOct47]
-    | cons x r => simpa using ih r (noOct47_tail h)
-
 theorem isOct_eq (c : Nat) : LitModel.isOct c = LitSpec.isOctD c := rfl
 
 theorem bind_some_eq {α β : Type} {o : Option α} {f : α → Option β} {y : β} (h : o.bind f = some y) : ∃ x, o = some x ∧ f x = some y := by
@@ -105,7 +85,7 @@ theorem bind_some_eq {α β : Type} {o : Option α} {f : α → Option β} {y : 
 theorem model_oct (f e : Nat) (r buf : List Nat) (h1 : 48 ≤ e) (h2 : e ≤ 55) :
     LitModel.strLoop (f+1) (92 :: e :: r) buf =
       if e = 48 ∧ !(match r with | a :: _ => LitModel.isOct a | [] => false) then LitModel.strLoop f r (buf ++ [0])
-      else LitModel.strLoop f (LitModel.octMore (e - 48) r).2 (buf ++ encodeRune (LitModel.octMore (e - 48) r).1) := by
+      else LitModel.strLoop f (LitModel.octMore (decide (e < 52)) (e - 48) r).2 (buf ++ encodeRune (LitModel.octMore (decide (e < 52)) (e - 48) r).1) := by
   simp only [LitModel.strLoop]
   have h80 : ¬ e ≥ 128 := by omega
   simp only [show ¬ ((92:Nat) ≥ 128) by omega, show ¬ ((92:Nat) ≠ 92) by simp, h80, if_false,
@@ -115,20 +95,29 @@ theorem model_oct (f e : Nat) (r buf : List Nat) (h1 : 48 ≤ e) (h2 : e ≤ 55)
   | nil => simp [h1, h2]
   | cons a r' => simp [h1, h2]
 
+theorem octMore_two (two : Bool) (v a : Nat) (r1 : List Nat) (hoa : LitModel.isOct a = true)
+    (h : two = true → ∀ b r2, r1 = b :: r2 → LitModel.isOct b = false) :
+    LitModel.octMore two v (a :: r1) = (v * 8 + (a - 48), r1) := by
+  cases two
+  · simp [LitModel.octMore, hoa]
+  · match r1, h rfl with
+    | [], _ => simp [LitModel.octMore, hoa]
+    | b :: r2, hnb => simp [LitModel.octMore, hoa, hnb b r2 rfl]
+
 theorem strLoop_nil (f : Nat) (buf : List Nat) : LitModel.strLoop (f+1) [] buf = some buf := by
   simp [LitModel.strLoop]
 
 theorem encodeRune_oku {v : Nat} (h : OKU v) : encodeRunes [v] = encodeRune v := by simp [encodeRunes]
 
 /-- one recursion step of the model after an escape that yields the single value `v` and continues with `r'` -/
-theorem core : ∀ (fuel : Nat) (s us : List Nat), (∀ c ∈ s, c < 128) → noOct47 s = true →
-    LitSpec.sv fuel s = some us →
+theorem core : ∀ (fuel : Nat) (s us : List Nat), (∀ c ∈ s, c < 128) →
+    LitSpec.sv fuel s = some us → (∀ u ∈ us, OKU u) →
     ∀ (fuel' : Nat) (buf : List Nat), s.length < fuel' → LitModel.strLoop fuel' s buf = some (buf ++ encodeRunes us) := by
   intro fuel
   induction fuel with
-  | zero => intro s us _ _ h; simp [LitSpec.sv] at h
+  | zero => intro s us _ h; simp [LitSpec.sv] at h
   | succ fuel ih =>
-    intro s us hasc hoct hsv fuel' buf hlen
+    intro s us hasc hsv hoku fuel' buf hlen
     obtain ⟨f, rfl⟩ : ∃ f, fuel' = f + 1 := ⟨fuel' - 1, by omega⟩
     match s with
     | [] =>
@@ -137,7 +126,6 @@ theorem core : ∀ (fuel : Nat) (s us : List Nat), (∀ c ∈ s, c < 128) → no
     | c :: rest =>
       have hc : c < 128 := hasc c (by simp)
       have hrest : ∀ x ∈ rest, x < 128 := fun x hx => hasc x (by simp [hx])
-      have hoct' := noOct47_tail hoct
       simp only [List.length_cons] at hlen
       by_cases hbs : c = 92
       · subst hbs
@@ -146,16 +134,15 @@ theorem core : ∀ (fuel : Nat) (s us : List Nat), (∀ c ∈ s, c < 128) → no
         | e :: r =>
           have he : e < 128 := hrest e (by simp)
           have hr : ∀ x ∈ r, x < 128 := fun x hx => hrest x (by simp [hx])
-          have hoctr := noOct47_tail hoct'
           simp only [List.length_cons] at hlen
           simp only [LitSpec.sv] at hsv
           simp only [show ((92:Nat) ≠ 92) = False by simp, if_false] at hsv
           -- the continuation step shared by every escape: the model goes on with `r2` and a buffer extended by `X`
-          have fin : ∀ (r2 us' X : List Nat) (v : Nat), (∀ x ∈ r2, x < 128) → noOct47 r2 = true → LitSpec.sv fuel r2 = some us' →
+          have fin : ∀ (r2 us' X : List Nat) (v : Nat), (∀ x ∈ r2, x < 128) → LitSpec.sv fuel r2 = some us' →
               encodeRune v = X → r2.length < f → us = v :: us' →
               LitModel.strLoop f r2 (buf ++ X) = some (buf ++ encodeRunes us) := by
-            intro r2 us' X v h1 h2 h3 h4 h5 h6
-            rw [ih r2 us' h1 h2 h3 f (buf ++ X) h5, h6, encodeRunes_cons, h4, List.append_assoc]
+            intro r2 us' X v h1 h3 h4 h5 h6
+            rw [ih r2 us' h1 h3 (fun u hu => hoku u (by rw [h6]; simp [hu])) f (buf ++ X) h5, h6, encodeRunes_cons, h4, List.append_assoc]
           have h80 : ¬ e ≥ 0x80 := by omega
           by_cases h13 : e = 13
           · subst h13
@@ -167,19 +154,19 @@ theorem core : ∀ (fuel : Nat) (s us : List Nat), (∀ c ∈ s, c < 128) → no
               show ¬ ((13:Nat) = 120) by omega, show ¬ ((13:Nat) = 117) by omega, show ¬ ((13:Nat) = 48) by omega,
               show ¬ ((48:Nat) ≤ 13) by omega, false_and, if_false, if_true]
             match r with
-            | [] => simp only at hsv ⊢; exact ih [] us (by simp) (by simp [noOct47]) hsv f buf (by simp at hlen ⊢; omega)
+            | [] => simp only at hsv ⊢; exact ih [] us (by simp) hsv hoku f buf (by simp at hlen ⊢; omega)
             | x :: r' =>
               by_cases hx : x = 10
               · subst hx
                 simp only at hsv ⊢
-                exact ih r' us (fun y hy => hr y (by simp [hy])) (noOct47_tail hoctr) hsv f buf (by simp at hlen ⊢; omega)
+                exact ih r' us (fun y hy => hr y (by simp [hy])) hsv hoku f buf (by simp at hlen ⊢; omega)
               · have hsv' : LitSpec.sv fuel (x :: r') = some us := by
                   split at hsv
                   · rename_i heq; simp at heq; exact absurd heq.1 hx
                   · exact hsv
                 split
                 · rename_i heq; simp at heq; exact absurd heq.1 hx
-                · exact ih (x :: r') us hr hoctr hsv' f buf (by simp at hlen ⊢; omega)
+                · exact ih (x :: r') us hr hsv' hoku f buf (by simp at hlen ⊢; omega)
           · simp only [h13, if_false] at hsv
             by_cases hlt : LitSpec.isLT e = true
             · -- `\` LF  (U+2028/2029 are not ASCII)
@@ -192,7 +179,7 @@ theorem core : ∀ (fuel : Nat) (s us : List Nat), (∀ c ∈ s, c < 128) → no
                 show ¬ ((10:Nat) = 114) by omega, show ¬ ((10:Nat) = 116) by omega, show ¬ ((10:Nat) = 118) by omega,
                 show ¬ ((10:Nat) = 120) by omega, show ¬ ((10:Nat) = 117) by omega, show ¬ ((10:Nat) = 48) by omega,
                 show ¬ ((48:Nat) ≤ 10) by omega, show ¬ ((10:Nat) = 13) by omega, false_and, if_false, if_true]
-              exact ih r us hr hoctr hsv f buf (by omega)
+              exact ih r us hr hsv hoku f buf (by omega)
             · simp only [hlt, if_false] at hsv
               by_cases hx : e = 120
               · subst hx
@@ -205,7 +192,7 @@ theorem core : ∀ (fuel : Nat) (s us : List Nat), (∀ c ∈ s, c < 128) → no
                   show ¬ ((120:Nat) = 98) by omega, show ¬ ((120:Nat) = 102) by omega, show ¬ ((120:Nat) = 110) by omega,
                   show ¬ ((120:Nat) = 114) by omega, show ¬ ((120:Nat) = 116) by omega, show ¬ ((120:Nat) = 118) by omega,
                   if_false, if_true, hh.1, Option.bind_some]
-                exact fin (r.drop 2) us' _ v (fun x hx => hr x (List.mem_of_mem_drop hx)) (noOct47_drop 2 r hoctr) h3 rfl
+                exact fin (r.drop 2) us' _ v (fun x hx => hr x (List.mem_of_mem_drop hx)) h3 rfl
                   (by rw [List.length_drop]; omega) h4.symm
               · simp only [hx, if_false] at hsv
                 by_cases hu : e = 117
@@ -219,7 +206,13 @@ theorem core : ∀ (fuel : Nat) (s us : List Nat), (∀ c ∈ s, c < 128) → no
                     show ¬ ((117:Nat) = 98) by omega, show ¬ ((117:Nat) = 102) by omega, show ¬ ((117:Nat) = 110) by omega,
                     show ¬ ((117:Nat) = 114) by omega, show ¬ ((117:Nat) = 116) by omega, show ¬ ((117:Nat) = 118) by omega,
                     show ¬ ((117:Nat) = 120) by omega, if_false, if_true, hh.1, Option.bind_some]
-                  exact fin (r.drop 4) us' _ v (fun x hx => hr x (List.mem_of_mem_drop hx)) (noOct47_drop 4 r hoctr) h3 rfl
+                  have hp : LitModel.pairLow v (r.drop 4) = none := by
+                    have hv' := hoku v (by rw [← h4]; simp)
+                    unfold OKU at hv'
+                    have : ¬ (0xD800 ≤ v ∧ v < 0xDC00) := by omega
+                    simp [LitModel.pairLow, this]
+                  simp only [hp]
+                  exact fin (r.drop 4) us' _ v (fun x hx => hr x (List.mem_of_mem_drop hx)) h3 rfl
                     (by rw [List.length_drop]; omega) h4.symm
                 · simp only [hu, if_false] at hsv
                   have hne10 : e ≠ 10 := by intro h; subst h; simp [LitSpec.isLT] at hlt
@@ -237,7 +230,6 @@ theorem core : ∀ (fuel : Nat) (s us : List Nat), (∀ c ∈ s, c < 128) → no
                       · simp [e48, LitModel.octMore, strLoop_nil, encodeRunes]
                     | a :: r1 =>
                       have hr1 : ∀ x ∈ r1, x < 128 := fun x hx => hr x (by simp [hx])
-                      have hoct1 := noOct47_tail hoctr
                       simp only [List.length_cons] at hlen
                       by_cases hoa : LitSpec.isOctD a = true
                       · have hoa' : LitModel.isOct a = true := hoa
@@ -246,51 +238,39 @@ theorem core : ∀ (fuel : Nat) (s us : List Nat), (∀ c ∈ s, c < 128) → no
                         simp only [hn, if_false]
                         -- the two-digit continuation (shared)
                         have two : ∀ us', LitSpec.sv fuel r1 = some us' → ((e-48)*8 + (a-48)) :: us' = us →
-                            (∀ b r2, r1 = b :: r2 → LitModel.isOct b = false) →
-                            LitModel.strLoop (f'+1) (LitModel.octMore (e - 48) (a :: r1)).2
-                              (buf ++ encodeRune (LitModel.octMore (e - 48) (a :: r1)).1) = some (buf ++ encodeRunes us) := by
+                            (decide (e < 52) = true → ∀ b r2, r1 = b :: r2 → LitModel.isOct b = false) →
+                            LitModel.strLoop (f'+1) (LitModel.octMore (decide (e < 52)) (e - 48) (a :: r1)).2
+                              (buf ++ encodeRune (LitModel.octMore (decide (e < 52)) (e - 48) (a :: r1)).1) = some (buf ++ encodeRunes us) := by
                           intro us' h3 h4 hnb
-                          have hom : LitModel.octMore (e - 48) (a :: r1) = ((e-48)*8 + (a-48), r1) := by
-                            simp only [LitModel.octMore, hoa', if_true]
-                            match r1, hnb with
-                            | [], _ => rfl
-                            | b :: r2, hnb => simp [hnb b r2 rfl]
+                          have hom := octMore_two (decide (e < 52)) (e - 48) a r1 hoa' hnb
                           rw [hom]
-                          exact fin r1 us' _ _ hr1 hoct1 h3 rfl (by omega) h4.symm
+                          exact fin r1 us' _ _ hr1 h3 rfl (by omega) h4.symm
                         by_cases he51 : e ≤ 51
                         · simp only [he51, if_true] at hsv
                           match r1 with
                           | [] =>
                             obtain ⟨us', h3, h4⟩ := map_some_eq hsv
-                            exact two us' h3 h4 (fun b r2 h => by simp at h)
+                            exact two us' h3 h4 (fun _ b r2 h => by simp at h)
                           | b :: r2 =>
                             by_cases hob : LitSpec.isOctD b = true
                             · have hob' : LitModel.isOct b = true := hob
                               simp only [hob, if_true] at hsv
                               obtain ⟨us', h3, h4⟩ := map_some_eq hsv
-                              have hom : LitModel.octMore (e - 48) (a :: b :: r2) = (((e-48)*8 + (a-48))*8 + (b-48), r2) := by
-                                simp [LitModel.octMore, hoa', hob']
+                              have hd52 : decide (e < 52) = true := by simp; omega
+                              have hom : LitModel.octMore (decide (e < 52)) (e - 48) (a :: b :: r2) = (((e-48)*8 + (a-48))*8 + (b-48), r2) := by
+                                rw [hd52]; simp [LitModel.octMore, hoa', hob']
                               rw [hom]
                               have harith : ((e-48)*8 + (a-48))*8 + (b-48) = (e-48)*64 + (a-48)*8 + (b-48) := by omega
                               simp only [List.length_cons] at hlen
-                              exact fin r2 us' _ _ (fun x hx => hr1 x (by simp [hx])) (noOct47_tail hoct1) h3 rfl (by omega)
+                              exact fin r2 us' _ _ (fun x hx => hr1 x (by simp [hx])) h3 rfl (by omega)
                                 (by rw [harith]; exact h4.symm)
                             · simp only [hob, Bool.false_eq_true, if_false] at hsv
                               obtain ⟨us', h3, h4⟩ := map_some_eq hsv
-                              exact two us' h3 h4 (fun b' r2' h => by
+                              exact two us' h3 h4 (fun _ b' r2' h => by
                                 simp at h; rw [← h.1]; simpa [isOct_eq] using hob)
                         · simp only [he51, if_false] at hsv
                           obtain ⟨us', h3, h4⟩ := map_some_eq hsv
-                          refine two us' h3 h4 (fun b r2 h => ?_)
-                          subst h
-                          -- three digits after 4–7 would be the deviation region
-                          have := hoct
-                          simp only [noOct47] at this
-                          cases hb : LitModel.isOct b
-                          · rfl
-                          · have hb' : LitSpec.isOctD b = true := hb
-                            have h52 : 52 ≤ e ∧ e ≤ 55 := by omega
-                            simp [h52, hoa, hb'] at this
+                          exact two us' h3 h4 (fun hd => absurd hd (by simp; omega))
                       · have hoa' : LitModel.isOct a = false := by simpa [isOct_eq] using hoa
                         simp only [hoa, Bool.false_eq_true, if_false] at hsv
                         by_cases hda : LitSpec.isDec a = true
@@ -300,12 +280,12 @@ theorem core : ∀ (fuel : Nat) (s us : List Nat), (∀ c ∈ s, c < 128) → no
                           by_cases e48 : e = 48
                           · subst e48
                             simp only [hoa', Bool.not_false, and_self, if_true]
-                            exact fin (a :: r1) us' _ 0 hr hoctr h3 (by simp [encodeRune]) (by simp; omega) (by simpa using h4.symm)
+                            exact fin (a :: r1) us' _ 0 hr h3 (by simp [encodeRune]) (by simp; omega) (by simpa using h4.symm)
                           · simp only [e48, false_and, if_false]
-                            have hom : LitModel.octMore (e - 48) (a :: r1) = (e - 48, a :: r1) := by
+                            have hom : LitModel.octMore (decide (e < 52)) (e - 48) (a :: r1) = (e - 48, a :: r1) := by
                               simp [LitModel.octMore, hoa']
                             rw [hom]
-                            exact fin (a :: r1) us' _ _ hr hoctr h3 rfl (by simp; omega) h4.symm
+                            exact fin (a :: r1) us' _ _ hr h3 rfl (by simp; omega) h4.symm
                   · simp only [hoc, Bool.false_eq_true, if_false] at hsv
                     have hoc' : ¬ (48 ≤ e ∧ e ≤ 55) := by simpa [LitSpec.isOctD] using hoc
                     by_cases h89 : e = 56 ∨ e = 57
@@ -346,7 +326,7 @@ theorem core : ∀ (fuel : Nat) (s us : List Nat), (∀ c ∈ s, c < 128) → no
                             else if e = 102 then 12 else if e = 114 then 13 else e] := by
                         simp only [LitSpec.units]; rw [if_pos (by omega)]
                       rw [hunits] at h4
-                      exact fin r us' _ _ hr hoctr h3 (encodeRune_ascii hsingle) (by omega) (by simpa using h4.symm)
+                      exact fin r us' _ _ hr h3 (encodeRune_ascii hsingle) (by omega) (by simpa using h4.symm)
       · -- an ordinary character
         have hlt : LitSpec.isLT c = false ∨ LitSpec.isLT c = true := by cases LitSpec.isLT c <;> simp
         simp only [LitSpec.sv, hbs, ne_eq, not_false_eq_true, if_true] at hsv
@@ -357,7 +337,7 @@ theorem core : ∀ (fuel : Nat) (s us : List Nat), (∀ c ∈ s, c < 128) → no
           have hu : LitSpec.units c = [c] := by simp [LitSpec.units]; omega
           have h80 : ¬ c ≥ 0x80 := by omega
           simp only [LitModel.strLoop, h80, if_false, hbs, ne_eq, not_false_eq_true, if_true]
-          rw [ih rest us' hrest hoct' h1 f (buf ++ [c]) (by omega), hu]
+          rw [ih rest us' hrest h1 (fun u hu' => hoku u (by simp [hu'])) f (buf ++ [c]) (by omega), hu]
           simp [encodeRunes_cons, encodeRune_ascii hc]
         · simp [hlt] at hsv
 
@@ -392,8 +372,8 @@ theorem plain : ∀ (fuel : Nat) (s us : List Nat), (∀ c ∈ s, c < 128) → (
     parseStringLiteral returns the UTF-8 encoding of exactly those code points, provided the text is outside
     `octal_escape_4to7`.  (Non-ASCII source characters, where `line_continuation_ls_ps` lives, are not covered; for
     `surrogate_escape` see `strlit_value_ascii_units`.) -/
-theorem strlit_value_ascii (lit us : List Nat) (hasc : ∀ c ∈ lit, c < 128) (hoct : noOct47 lit = true)
-    (hsv : LitSpec.sv (lit.length + 1) lit = some us) :
+theorem strlit_enc (lit us : List Nat) (hasc : ∀ c ∈ lit, c < 128)
+    (hsv : LitSpec.sv (lit.length + 1) lit = some us) (hoku : ∀ u ∈ us, OKU u) :
     LitModel.parseStringLiteral lit = some (encodeRunes us) := by
   unfold LitModel.parseStringLiteral
   by_cases he : lit.isEmpty = true
@@ -403,7 +383,7 @@ theorem strlit_value_ascii (lit us : List Nat) (hasc : ∀ c ∈ lit, c < 128) (
     simp [encodeRunes]
   · by_cases hb : lit.contains 92 = true
     · simp only [he, Bool.false_eq_true, if_false, hb, Bool.not_true]
-      have := core (lit.length + 1) lit us hasc hoct hsv (lit.length + 1) [] (by omega)
+      have := core (lit.length + 1) lit us hasc hsv hoku (lit.length + 1) [] (by omega)
       simpa using this
     · have hnb : ∀ c ∈ lit, c ≠ 92 := by
         intro c hc h92; subst h92
@@ -429,10 +409,10 @@ theorem utf16Decode_oku : ∀ us : List Nat, (∀ u ∈ us, OKU u) → utf16Deco
 
 /-- … and when the value contains no surrogate code unit (outside `surrogate_escape`) that is the Go string of the value:
     model = `bytesOfUnits (SV)`, the token the correspondence compares -/
-theorem strlit_value_ascii_units (lit us : List Nat) (hasc : ∀ c ∈ lit, c < 128) (hoct : noOct47 lit = true)
+theorem strlit_value_ascii_units (lit us : List Nat) (hasc : ∀ c ∈ lit, c < 128)
     (hsv : LitSpec.sv (lit.length + 1) lit = some us) (hsur : ∀ u ∈ us, OKU u) :
     LitModel.parseStringLiteral lit = some (bytesOfUnits us) := by
-  rw [strlit_value_ascii lit us hasc hoct hsv, bytesOfUnits, utf16Decode_oku us hsur]
+  rw [strlit_enc lit us hasc hsv hsur, bytesOfUnits, utf16Decode_oku us hsur]
 
 /-! ### numeric literals -/
 
